@@ -85,7 +85,7 @@ theorem field_getter_setter_iff (bo : DDV.Bits.ByteOrder) (bito : DDV.Bits.BitOr
 theorem effective_register_access (g : GlobalConfig) (c : ACommon) (access : Option Access)
     (bo : Option DDV.Bits.ByteOrder) (bito : Option DDV.Bits.BitOrder) (address : Int) (size : Nat) (o : Object)
     (syn : Syntax)
-    (h : (match syn with | .dsl => dslObj g | _ => manObj g)
+    (h : (match syn with | .dsl => dslObj g | s => manObj s g)
           (.register c access bo bito address size none none none none []) = .ok o) :
     ∃ r, o = .register r ∧ r.access = access.getD g.defaultRegisterAccess := by
   cases syn <;> simp only at h <;>
